@@ -322,6 +322,9 @@ static void mark_phase(int nthreads) { mark("phase", nthreads); }
 template <class F> static void phases(const Cfg& c, F body) {
   for (size_t p = 0; p < c.hist.size(); ++p) {
     stir::set_num_threads(c.hist[p]);
+    // some phases of a history let the runtime choose smaller teams (omp_set_dynamic): per-thread state sized by
+    // omp_get_max_threads() must still cover whatever team the runtime forms
+    omp_set_dynamic(c.hist.size() > 1 && c.hist_modes[p] == 3 ? 1 : 0);
     rec::g_mode = c.hist_modes[p];
     g_phase = (int)p + 1;
     mark_phase(c.hist[p]);
@@ -650,8 +653,9 @@ static void wl_io(const Cfg& c) {
   shared_ptr<ExamInfo> ex = make_exam();
   shared_ptr<ProjDataInfo> pdi = make_pdi(c);
   vh::Rng rng(c.data_seed);
-  shared_ptr<ProjData> pd = make_projdata(c, ex, pdi, true);
-  fill_projdata(*pd, rng, 0, 200, 0.125F);
+  shared_ptr<ProjData> pd_file = make_projdata(c, ex, pdi, true), pd_mem = make_projdata(c, ex, pdi, false);
+  fill_projdata(*pd_file, rng, 0, 200, 0.125F);
+  pd_mem->fill(*pd_file);
   struct Item { int op, view, seg, ax, tof; };
   std::vector<Item> work;
   const int nwork = 500;
@@ -670,8 +674,11 @@ static void wl_io(const Cfg& c) {
       for (int k = pdi->get_min_tof_pos_num(); k <= pdi->get_max_tof_pos_num(); ++k)
         work.insert(work.begin() + rng.range(0, (int)work.size()), Item{ 3, v, s, 0, k });
   phases(c, [&] {
+  for (int which = 0; which < 2; ++which) {      // the Interfile data set, then the same through ProjDataInMemory
+  shared_ptr<ProjData> pd = which == 0 ? pd_file : pd_mem;
+  const std::string pre = which == 0 ? "io" : "mem";
   std::vector<double> dig(work.size() * 2, 0.);
-  mark("io");
+  mark(which == 0 ? "io" : "mem");
 #pragma omp parallel for schedule(dynamic, 1)
   for (int i = 0; i < (int)work.size(); ++i) {
     const Item& it = work[i];
@@ -697,8 +704,9 @@ static void wl_io(const Cfg& c) {
     dig[(size_t)i * 2] = sum; dig[(size_t)i * 2 + 1] = wsum;
   }
   mark("end");
-  out_fx("io.read", dig);
-  out_fx("io.content", pd_vals(*pd));
+  out_fx(pre + ".read", dig);
+  out_fx(pre + ".content", pd_vals(*pd));
+  }
   });
 }
 
@@ -910,6 +918,7 @@ static void one_run(const Cfg& c, long inst, int rep, uint64_t seed, bool is_ref
     g_text = j.done() + "\n"; ++g_lines; g_outs.clear();
     flush_text();                            // visible even if the run crashes
   }
+  omp_set_dynamic(0);
   stir::set_num_threads(c.T0);
   std::string msg;
   uint64_t h = 0;
